@@ -78,7 +78,7 @@ func newDriver(comp int64, cfg []int64) driver {
 	case compJB:
 		return newJbDrv()
 	case compFF:
-		return newFfDrv(uint32(arg(0))) //nolint:gosec
+		return newFfDrv(uint32(arg(0)), arg(1)) //nolint:gosec
 	case compRC:
 		return &rcDrv{window: arg(0)}
 	case compLB:
@@ -415,6 +415,31 @@ func siCase(r *rand.Rand, unbind bool) c12Case {
 	return c12Case{Comp: compSI, Cfg: []int64{}, Name: name, Ops: ops}
 }
 
+// siRandCase interleaves Bind and Unbind of a small set of SSRCs at random:
+// re-binding a bound stream, unbinding twice, unbinding a stream that was never
+// bound, and binding again after Unbind (a fresh recorder must appear).
+func siRandCase(r *rand.Rand) c12Case {
+	ops := phased(r, 4, func(_ int, r *rand.Rand) []opx {
+		var o []opx
+		ns := 2 + r.Intn(6)
+		for i := 0; i < 60; i++ {
+			s := int64(1 + r.Intn(ns))
+			if r.Intn(5) < 3 {
+				o = append(o, opx{Op: 1, Args: []int64{s}, Sample: true})
+			} else {
+				o = append(o, opx{Op: 2, Args: []int64{s}, Sample: true})
+			}
+		}
+		for s := 1; s <= ns; s++ { // every phase ends with nothing bound
+			o = append(o, opx{Op: 2, Args: []int64{int64(s)}, Sample: true})
+		}
+
+		return o
+	})
+
+	return c12Case{Comp: compSI, Cfg: []int64{}, Name: "bind-unbind-random", Ops: ops}
+}
+
 // ---- jitter buffer interceptor ----
 type jbDrv struct {
 	base
@@ -499,8 +524,13 @@ type ffDrv struct {
 	sn map[int64]uint16
 }
 
-func newFfDrv(numMedia uint32) *ffDrv {
-	f, err := flexfec.NewFecInterceptor(flexfec.NumMediaPackets(numMedia), flexfec.NumFECPackets(1))
+// fecPlus (cfg[1]): 0 or absent = NumFECPackets(1); v > 0 = NumFECPackets(v-1), so 1 asks for no repair packets.
+func newFfDrv(numMedia uint32, fecPlus int64) *ffDrv {
+	numFec := uint32(1)
+	if fecPlus > 0 {
+		numFec = uint32(fecPlus - 1) //nolint:gosec
+	}
+	f, err := flexfec.NewFecInterceptor(flexfec.NumMediaPackets(numMedia), flexfec.NumFECPackets(numFec))
 	if err != nil {
 		panic(err)
 	}
@@ -531,6 +561,9 @@ func (d *ffDrv) apply(o opx) []entry {
 	default:
 		if w, ok := d.w[s]; ok {
 			d.sn[s]++
+			if len(o.Args) > 1 { // explicit RTP sequence number (gaps, duplicates, reordering inside a batch)
+				d.sn[s] = uint16(o.Args[1]) //nolint:gosec
+			}
 			hdr := &rtp.Header{Version: 2, SSRC: uint32(s), SequenceNumber: d.sn[s], PayloadType: 96} //nolint:gosec
 			_, _ = w.Write(hdr, []byte{1, 2, 3, 4, 5, 6, 7, 8}, nil)
 		}
@@ -565,6 +598,31 @@ func ffCase(r *rand.Rand, numMedia int64) c12Case {
 	})
 
 	return c12Case{Comp: compFF, Cfg: []int64{numMedia}, Name: "fec", Ops: ops}
+}
+
+// ffSeqCase writes packets whose RTP sequence numbers follow a lossy /
+// duplicated / reordered pattern (the encoder returns no repair packets for a
+// batch that is not consecutive) and optionally asks for zero repair packets:
+// the batch buffer must be reset all the same.
+func ffSeqCase(r *rand.Rand, kind string, numMedia, fecPlus int64) c12Case {
+	pat := pattern(r, kind, 150)
+	base := int64(r.Intn(65536))
+	if r.Intn(2) == 0 {
+		base = 65536 - int64(r.Intn(100))
+	}
+	ops := phased(r, 4, func(p int, _ *rand.Rand) []opx {
+		var o []opx
+		if p == 0 {
+			o = append(o, opx{Op: 1, Args: []int64{1}, Sample: true})
+		}
+		for i, off := range pat {
+			o = append(o, opx{Op: 3, Args: []int64{1, (base + int64(p)*200 + off) % 65536}, Sample: i%3 == 0})
+		}
+
+		return o
+	})
+
+	return c12Case{Comp: compFF, Cfg: []int64{numMedia, fecPlus}, Name: "fec-" + kind, Ops: ops}
 }
 
 // ---- queues without admission limit ----
@@ -722,7 +780,9 @@ func histCase(r *rand.Rand, kind string, n, fbEvery int, isTw bool) c12Case {
 	if isTw {
 		tw = 1
 	}
-	first := true
+	// half of the histories acknowledge the very first packet as arrived; in the others the first
+	// reports may come while nothing was acknowledged as arrived yet (history.acked still false)
+	first := r.Intn(2) == 0
 	ops := phased(r, 4, func(p int, r *rand.Rand) []opx {
 		var o []opx
 		arrived := map[int64]bool{}
@@ -767,6 +827,85 @@ func histCase(r *rand.Rand, kind string, n, fbEvery int, isTw bool) c12Case {
 	sampleEvery(ops, len(ops)/30)
 
 	return c12Case{Comp: compHIST, Cfg: []int64{}, Name: kind, Ops: ops}
+}
+
+// histRtxCase: histories with retransmissions. A packet still waiting for
+// feedback is sent again with the same SSRC and RTP sequence number (and, for
+// TWCC, sometimes with the same transport-wide number): the index entry then
+// belongs to the later packet while the earlier one is reported and released.
+// With lag the feedback acknowledges only the older part of what is pending,
+// so that an original is reported before its retransmission is acknowledged.
+func histRtxCase(r *rand.Rand, kind string, n, fbEvery int, isTw, lag bool) c12Case {
+	pat := pattern(r, kind, n)
+	base := int64(r.Intn(65536))
+	twBase := int64(r.Intn(65536))
+	ns := int64(1 + r.Intn(2))
+	tw := int64(0)
+	if isTw {
+		tw = 1
+	}
+	ops := phased(r, 4, func(p int, r *rand.Rand) []opx {
+		var o []opx
+		arrived := map[int64]bool{}
+		for _, off := range pat {
+			arrived[off] = true
+		}
+		var pending [][]int64 // ssrc, seq, tws, arrived
+		sends := int64(p) * int64(3*n)
+		for i := 0; i < n; i++ {
+			k := int64(p)*int64(n) + int64(i)
+			ssrc := 1 + k%ns
+			seq := (base + k) % 65536
+			tws := (twBase + sends) % 65536
+			sends++
+			o = append(o, opx{Op: 1, Args: []int64{ssrc, seq, tw, tws}})
+			ok := int64(0)
+			if arrived[int64(i)] || i == 0 {
+				ok = 1
+			}
+			pending = append(pending, []int64{ssrc, seq, tws, ok})
+			if r.Intn(5) == 0 { // retransmission of a packet that still waits for feedback
+				q := pending[len(pending)-1-r.Intn(min(len(pending), 10))]
+				var lost [][]int64 // preferably a packet that will be reported as not arrived
+				for _, c := range pending[max(0, len(pending)-12):] {
+					if c[3] == 0 {
+						lost = append(lost, c)
+					}
+				}
+				if len(lost) > 0 && r.Intn(4) != 0 {
+					q = lost[r.Intn(len(lost))]
+				}
+				ntw := (twBase + sends) % 65536
+				if isTw && r.Intn(2) == 0 {
+					ntw = q[2] // the transport-wide number is used again
+				} else {
+					sends++
+				}
+				o = append(o, opx{Op: 1, Args: []int64{q[0], q[1], tw, ntw}})
+				pending = append(pending, []int64{q[0], q[1], ntw, int64(r.Intn(2))})
+			}
+			if (i+1)%fbEvery == 0 || i == n-1 {
+				cut := len(pending)
+				if lag && i != n-1 {
+					cut -= r.Intn(min(len(pending), 12))
+				}
+				for _, q := range pending[:cut] {
+					if isTw {
+						o = append(o, opx{Op: 2, Args: []int64{q[2], q[3]}})
+					} else {
+						o = append(o, opx{Op: 3, Args: []int64{q[0], q[1], q[3]}})
+					}
+				}
+				pending = append([][]int64{}, pending[cut:]...)
+				o = append(o, opx{Op: 4, Args: []int64{0}, Sample: true})
+			}
+		}
+
+		return o
+	})
+	sampleEvery(ops, len(ops)/30)
+
+	return c12Case{Comp: compHIST, Cfg: []int64{}, Name: kind + "+rtx", Ops: ops}
 }
 
 // ---- NACK generator (real interceptor; the ticker loop is run one whole
